@@ -177,23 +177,35 @@ def optFieldsOf (what : String) (ft : Y) : FR (Option KVs) := do
   | none => .ok none
   | some f => do let fm ← asMap (what ++ " fields") f; .ok (some fm)
 
-/-- default clock type of a data stream type: the clock the event record `timestamp` member is mapped to,
-    else the one of `timestamp_begin`, else the one of `timestamp_end`; `timestamp_begin`/`timestamp_end`
-    mapped to different clocks is a configuration error -/
+/-- `timestamp_begin` / `timestamp_end` mapped to different clocks is a configuration error -/
+def clocksOrError (tsb tse : Option Y) : FR Unit :=
+  match tsb, tse with
+  | some a, some b => if a ≠ b then .error (.other "Field types are not mapped to the same clock type") else .ok ()
+  | _, _ => .ok ()
+
+/-- the event record `timestamp` member's clock first, else the one of `timestamp_begin`, else `timestamp_end` -/
+def pickClock (c0 tsb tse : Option Y) : Option Y :=
+  match c0 with
+  | some c => some c
+  | none => match tsb with
+    | some c => some c
+    | none => tse
+
+/-- one `events` entry -/
+def convEvent (fuel : Nat) (ne : String × Y) : FR (String × Y) := do
+  let em ← asMap "event" ne.2
+  let e3 ← convErt fuel em
+  .ok (ne.1, Y.map e3)
+
+/-- default clock type of a data stream type -/
 def defaultClock (pc : KVs) (eh : Option KVs) : FR (Option Y) := do
   let tsb ← clkNameOf (kvGet "timestamp_begin" pc)
   let tse ← clkNameOf (kvGet "timestamp_end" pc)
-  match tsb, tse with
-  | some a, some b => if a ≠ b then Except.error (.other "Field types are not mapped to the same clock type") else pure ()
-  | _, _ => pure ()
-  let defClk0 ← match eh with
+  clocksOrError tsb tse
+  let c0 ← match eh with
     | some ehf => clkNameOf (kvGet "timestamp" ehf)
     | none => .ok none
-  .ok (match defClk0 with
-    | some c => some c
-    | none => match tsb with
-      | some c => some c
-      | none => tse)
+  .ok (pickClock c0 tsb tse)
 
 /-- `v3_features_node_from_v2_ft_nodes`: a feature is enabled (with the converted field type) exactly when
     the reserved member exists; the two sizes are mandatory -/
@@ -238,10 +250,7 @@ def convDst (fuel : Nat) (m : KVs) : FR KVs := do
     | none => .ok d3
   let evs ← req "events" m
   let evm ← asMap "events" evs
-  let erts ← evm.mapM fun (n, e) => do
-    let em ← asMap "event" e
-    let e3 ← convErt fuel em
-    .ok (n, Y.map e3)
+  let erts ← evm.mapM (convEvent fuel)
   .ok (kvSet "event-record-types" (.map erts) d4)
 
 def convMeta (fuel : Nat) (mnode : KVs) : FR KVs := do
